@@ -287,21 +287,59 @@ def _fmt_of_spec(W, spec, dtype):
     return fac.build()
 
 
+def _noncanonical(np, sps, m, how):
+    """a csr/csc container denoting the same matrix as the canonical m, with unsorted indices inside each
+    row ("unsorted") or every stored entry split in two entries at the same index ("dup")"""
+    ptr, idx, dat = m.indptr, m.indices, m.data
+    nptr, nidx, ndat = [0], [], []
+    for r in range(len(ptr) - 1):
+        js = list(range(int(ptr[r]), int(ptr[r + 1])))
+        if how == "unsorted":
+            js = js[::-1]
+        for k in js:
+            if how == "dup":
+                v = dat[k]
+                a, b = (v, v - v) if m.dtype.kind == "u" else (v + v, -v)
+                nidx += [idx[k], idx[k]]
+                ndat += [a, b]
+            else:
+                nidx.append(idx[k])
+                ndat.append(dat[k])
+        nptr.append(len(nidx))
+    cls = sps.csr_array if m.format == "csr" else sps.csc_array
+    return cls((np.array(ndat, dtype=m.dtype), np.array(nidx, dtype=idx.dtype), np.array(nptr, dtype=ptr.dtype)),
+               shape=m.shape)
+
+
+def _strided(np, a):
+    """the same values as a non-contiguous view (every other element of a larger buffer)"""
+    big = np.zeros(2 * a.size + 1, dtype=a.dtype)
+    big[::2][:a.size] = a
+    v = big[::2][:a.size]
+    assert a.size < 2 or not v.flags["C_CONTIGUOUS"]
+    return v
+
+
 def _make_operand(W, spec, dense, copy=None):
     """-> (Array, inputs kept alive [ndarrays], the scipy object or None)"""
     np, sps, sparse = W["np"], W["sps"], W["sparse"]
     k = spec["kind"]
     if k.startswith("scipy_"):
         m = {"scipy_csr": sps.csr_array, "scipy_csc": sps.csc_array, "scipy_coo": sps.coo_array}[k](dense)
+        if spec.get("noncanon"):
+            m = _noncanonical(np, sps, m, spec["noncanon"])
         if k == "scipy_coo":
             ins = [m.row, m.col, m.data]
         else:
             ins = [m.indptr, m.indices, m.data]
         return sparse.asarray(m, copy=copy), ins, m
-    if k == "dense" and spec.get("order") in (None, list(range(spec["ndim"]))) and spec.get("via") != "arrays":
+    if k == "dense" and spec.get("order") in (None, list(range(spec["ndim"]))) and spec.get("via") != "arrays" \
+            and not spec.get("strided"):
         return sparse.asarray(dense, copy=copy), [dense], None
     fmt = _fmt_of_spec(W, spec, dense.dtype)
     arrs = _build_arrays(np, dense, fmt.levels, fmt.order, fmt.pos_width, fmt.crd_width)
+    if spec.get("strided"):
+        arrs = [_strided(np, a) for a in arrs]
     return sparse.from_constituent_arrays(format=fmt, arrays=tuple(arrs), shape=dense.shape), arrs, None
 
 
@@ -404,6 +442,12 @@ def impl_numeric(case):
     elif op == "reshape":
         res = sparse.reshape(ops[0], tuple(case["new_shape"]))
         expected = denses[0].reshape(tuple(case["new_shape"]))
+    elif op == "add_reshape":
+        mid = sparse.add(ops[0], ops[1])
+        out["mid"] = _describe(W, mid)
+        out["mid_expected"] = _enc(np, denses[0] + denses[1])
+        res = sparse.reshape(mid, tuple(case["new_shape"]))
+        expected = (denses[0] + denses[1]).reshape(tuple(case["new_shape"]))
     elif op == "asformat":
         dst = _fmt_of_spec(W, case["dst"], dtype) if not case["dst"]["kind"].startswith("scipy_") else \
             sparse.asarray({"scipy_csr": sps.csr_array, "scipy_csc": sps.csc_array,
@@ -437,6 +481,39 @@ def impl_numeric(case):
             out["api_exc"] = type(ex).__name__
     out["inputs_unchanged"] = all(x.tobytes() == s for (ins, _m), sn in zip(keep, snaps, strict=True)
                                   for x, s in zip(ins, sn, strict=True))
+    return out
+
+
+def impl_wide(case):
+    """add / add->reshape of 2-d CSF operands given by explicit entries, with extents beyond what a dense
+    array can hold (coordinates that need the full coordinate width)"""
+    W = _setup()
+    np, sparse = W["np"], W["sparse"]
+    F = sparse.formats
+    shape, pw, cw, dtype = tuple(case["shape"]), case["pw"], case["cw"], case["dtype"]
+
+    def mk(entries):
+        rows = {}
+        for (i, j, v) in sorted(entries):
+            rows.setdefault(i, []).append((j, v))
+        pos, crd, data = [0], [], []
+        for i in range(shape[0]):
+            for j, v in rows.get(i, []):
+                crd.append(j)
+                data.append(v)
+            pos.append(len(crd))
+        fmt = F.Csf().with_ndim(2).with_dtype(np.dtype(dtype)).with_pos_width(pw).with_crd_width(cw).build()
+        arrs = (np.array(pos, dtype=f"int{pw}"), np.array(crd, dtype=f"int{cw}"), np.array(data, dtype=dtype))
+        return sparse.from_constituent_arrays(format=fmt, arrays=arrs, shape=shape), arrs
+    (a, ka), (b, kb) = mk(case["e1"]), mk(case["e2"])
+    snaps = [x.tobytes() for x in ka + kb]
+    out = {"inputs": [_describe(W, a), _describe(W, b)]}
+    r = sparse.add(a, b)
+    out["add"] = _describe(W, r)
+    if case.get("new_shape"):
+        q = sparse.reshape(r, tuple(case["new_shape"]))
+        out["reshape"] = _describe(W, q)
+    out["inputs_unchanged"] = all(x.tobytes() == s_ for x, s_ in zip(ka + kb, snaps, strict=True))
     return out
 
 
@@ -626,6 +703,8 @@ def spec_variants(ndim, rng, widths=(64,)):
                 dict(kind="csf", ndim=2, pw=w, cw=w), dict(kind="csf", ndim=2, order=[1, 0], pw=w, cw=w)]
     if ndim >= 2:
         out.append(dict(kind="csf", ndim=ndim, pw=w, cw=w))
+        pw_, cw_ = rng.choice([(8, 16), (16, 32), (32, 64), (8, 64)])
+        out.append(dict(kind="csf", ndim=ndim, pw=pw_, cw=cw_))                          # pointer narrower than coordinate
         out.append(dict(kind="dense", ndim=ndim, order=list(reversed(range(ndim)))))      # "F" level order
     if ndim in (1, 3, 4):
         out.append(dict(kind="coo", ndim=ndim, pw=w, cw=w))
@@ -694,6 +773,15 @@ def numeric_cases(tier, rng):
             for a in specs:
                 seed += 1
                 cases.append(dict(op="reshape", dtype=dt, operands=[shp(a, s0)], new_shape=list(s1), seed=seed))
+    # --- two-step add -> reshape with pointer width < coordinate width (dense-judged, small extents)
+    for dt in (["float64"] if quick else ["float64", "int32", "int16"]):
+        for pw_, cw_, s0, s1 in ((8, 16, (4, 100), (400,)), (8, 16, (2, 150), (300,)), (16, 32, (3, 50), (150,))):
+            a = dict(kind="csf", ndim=2, pw=pw_, cw=cw_)
+            seed += 1
+            # few enough stored entries for the POINTER width (nnz < 2^(pos_width-1)); the coordinates of the
+            # flattened result need the coordinate width
+            cases.append(dict(op="add_reshape", dtype=dt, operands=[shp(a, s0), shp(a, s0)], new_shape=list(s1),
+                              seed=seed, density=0.08))
     # --- asformat: all ordered pairs of formats at each rank
     for dt in (["float64", "int32"] if quick else dts_main):
         for nd in (1, 2, 3, 4):
@@ -704,6 +792,75 @@ def numeric_cases(tier, rng):
             for a, b in pairs:
                 seed += 1
                 cases.append(dict(op="asformat", dtype=dt, operands=[shp(a, SHAPES[nd][0])], dst=dict(b), seed=seed))
+    return cases
+
+
+WIDE = [  # (pos_width, crd_width, shape for add, (shape, new_shape) for add->reshape)
+    (8, 16, (3, 300), ((4, 100), (400,))),
+    (16, 32, (2, 40000), ((4, 10000), (40000,))),
+    (32, 64, (2, 2 ** 31 + 1000), ((2, 2 ** 30 + 8), (2 ** 31 + 16,))),
+]
+
+
+def wide_cases(tier, rng):
+    """operands whose pointer width is narrower than their coordinate width, with coordinates that do not fit
+    the pointer width: the result must keep the coordinate width (max over the operands' crd_width)"""
+    cases = []
+    reps = 1 if tier == "quick" else 4
+    for pw, cw, shape, (s2, new) in WIDE:
+        lim = 2 ** (pw - 1)
+        for dt in (["float64", "int32"] if tier == "quick" else ["float64", "int32", "int64", "float32", "complex128"]):
+            for _ in range(reps):
+                def ents(shp, must_exceed):
+                    n = rng.randint(3, 6)
+                    cols = {rng.randrange(0, min(shp[1], lim)) for _ in range(n)}
+                    if must_exceed:
+                        cols |= {rng.randrange(lim, shp[1]) for _ in range(3)} | {shp[1] - 1}
+                    return sorted({(rng.randrange(shp[0]), j) for j in cols})
+                def vals(keys):
+                    return [[i, j, rng.randint(1, 9)] for (i, j) in keys]
+                cases.append(dict(op="add", dtype=dt, pw=pw, cw=cw, shape=list(shape),
+                                  e1=vals(ents(shape, True)), e2=vals(ents(shape, True))))
+                # two-step: every coordinate of the sum fits the pointer width; the flattened ones do not
+                cases.append(dict(op="add_reshape", dtype=dt, pw=pw, cw=cw, shape=list(s2), new_shape=list(new),
+                                  e1=vals(ents((s2[0], min(s2[1], lim)), False)),
+                                  e2=vals(ents((s2[0], min(s2[1], lim)), False))))
+    return cases
+
+
+def special_cases(tier, rng):
+    """input classes reported against the unchanged backend: non-canonical SciPy containers (duplicates /
+    unsorted indices), non-contiguous constituent arrays.  Run one per fresh interpreter."""
+    cases = []
+    seed = rng.randrange(10 ** 6)
+    dts = ["float64", "int32"] if tier == "quick" else ["float64", "int32", "int8", "uint16", "complex64"]
+
+    def shp(spec, shape):
+        s_ = dict(spec)
+        s_["shape"] = list(shape)
+        return s_
+    for dt in dts:
+        for how in (("dup", "unsorted") if tier != "quick" or dt == "float64" else ("dup",)):
+            for kind in (("scipy_csr",) if tier == "quick" else ("scipy_csr", "scipy_csc")):
+                nc = dict(kind=kind, ndim=2, noncanon=how)
+                seed += 1
+                cases.append(dict(op="roundtrip", dtype=dt, operands=[shp(nc, (3, 4))], seed=seed, density=0.8))
+                seed += 1
+                cases.append(dict(op="add", dtype=dt, operands=[shp(nc, (3, 4)), shp(nc, (3, 4))], seed=seed, density=0.8))
+                if tier != "quick" or dt == "float64":
+                    seed += 1
+                    cases.append(dict(op="add", dtype=dt, density=0.8, seed=seed,
+                                      operands=[shp(nc, (3, 4)), shp(dict(kind="dense", ndim=2), (3, 4))]))
+                    seed += 1
+                    cases.append(dict(op="reshape", dtype=dt, operands=[shp(nc, (3, 4))], new_shape=[2, 6], seed=seed,
+                                      density=0.8))
+        for spec, shape in ((dict(kind="dense", ndim=1, strided=True), (6,)),
+                            (dict(kind="csf", ndim=2, strided=True), (3, 4)),
+                            (dict(kind="dense", ndim=2, strided=True), (3, 4))):
+            seed += 1
+            cases.append(dict(op="roundtrip", dtype=dt, operands=[shp(spec, shape)], seed=seed, density=0.8))
+            seed += 1
+            cases.append(dict(op="add", dtype=dt, operands=[shp(spec, shape), shp(spec, shape)], seed=seed, density=0.8))
     return cases
 
 
@@ -908,10 +1065,22 @@ def _isolated(fname, case, timeout=180):
         return {"hang": True}
     for line in p.stdout.splitlines():
         if line.startswith("RESULT"):
-            return json.loads(line[6:])
+            r = json.loads(line[6:])
+            if p.returncode < 0 or p.returncode in (134, 139):
+                r["abort_at_exit"] = p.returncode        # e.g. glibc "double free or corruption" while finalising
+            return r
     if p.returncode < 0 or p.returncode in (134, 139):
         return {"crash": p.returncode}
+    for cls in ("MLIRError", "NotImplementedError", "ValueError", "TypeError", "RuntimeError", "AssertionError"):
+        if cls in (p.stderr or ""):
+            return {"exc": cls, "msg": (p.stderr or "")[-300:], "rc": p.returncode}
     return {"exc": "Unknown", "msg": (p.stderr or "")[-300:], "rc": p.returncode}
+
+
+def _isolated_many(fname, cases, jobs=8):
+    from concurrent.futures import ThreadPoolExecutor
+    with ThreadPoolExecutor(max_workers=jobs) as ex:
+        return list(ex.map(lambda c: _isolated(fname, c), cases))
 
 
 def _replay_line(fname, case):
@@ -965,13 +1134,26 @@ def campaign(build, tier, seed, report, budget=1):
             skipped[e] = skipped.get(e, 0) + 1
         else:
             ncases.append(c)
+    # input classes that can corrupt the heap: one fresh interpreter per case (started now, collected below)
+    scases = special_cases(tier, rng)
+    from concurrent.futures import ThreadPoolExecutor
+    bg = ThreadPoolExecutor(max_workers=1)
+    sfut = bg.submit(_isolated_many, "impl_numeric", scases, 6)
     nres = _run_mlir("impl_numeric", ncases, workers=12, timeout=90.0)
+    sres = sfut.result()
+    bg.shutdown()
+    ncases = ncases + scases
+    nres = nres + sres
     lay_lits, lay_ref = [], []
     fmt_lits, fmt_ref = [], []
     tn_lits, tn_ref = [], []
 
     def clause_of(c):
         """named class of a case outside the domain the theorems/project cover, or None"""
+        if any(o.get("noncanon") for o in c["operands"]):
+            return "scipy_noncanonical_input"
+        if any(o.get("strided") for o in c["operands"]):
+            return "noncontiguous_constituent_arrays"
         if c["op"] == "reshape" and c["operands"][0].get("order") not in (None, list(range(c["operands"][0]["ndim"]))):
             return "reshape_nonidentity_order"
         return None
@@ -986,8 +1168,10 @@ def campaign(build, tier, seed, report, budget=1):
         kinds = "+".join(s["kind"] + str(s["ndim"]) for s in c["operands"])
         tag(f"{c['op']}/{kinds}" + ("->" + c["dst"]["kind"] if "dst" in c else ""))
         if r.get("crash") is not None or r.get("hang"):
-            nviol(i, "worker crashed or hung")
+            nviol(i, "worker crashed or hung" + (f" (signal/exit {r.get('crash')})" if r.get("crash") else ""))
             continue
+        if r.get("abort_at_exit") is not None:
+            nviol(i, f"the interpreter aborted while finalising (exit {r['abort_at_exit']}: heap corruption / double free)")
         if "exc" in r and "expected" not in r:
             if c["op"] == "roundtrip" and c.get("copy") is False and r["exc"] in ("NotImplementedError", "ValueError"):
                 tag("roundtrip/copy=False rejected")
@@ -1044,6 +1228,67 @@ def campaign(build, tier, seed, report, budget=1):
         nviol(tn_ref[k], f"to_numpy (judge_tonumpy code {code})", kind="representation" if code == 1 else "value",
               code=code)
 
+    # ------------------------------------------------------------ 2b. pointer width < coordinate width, wide extents
+    wcases = wide_cases(tier, rng)
+    wres = _run_mlir("impl_wide", wcases, workers=6, timeout=90.0)
+    sp_lits, sp_ref, wf_lits, wf_ref = [], [], [], []
+
+    def wviol(i, what, kind="value", **kw):
+        viol.append(dict(property="C20", op="wide_" + wcases[i]["op"], kind=kind, clause=None, what=what,
+                         case=wcases[i], impl=wres[i], replay_py=_replay_line("impl_wide", wcases[i]), **kw))
+
+    def sp_lit(d, expected):
+        return vpair(vlist([l[0] for l in d["fmt"][0]]), vlist(d["fmt"][1]), vlist(d["shape"]),
+                     vlist(d["idx"], vlist), vlist(d["data"]),
+                     "[" + "; ".join(vpair(vlist(ix), vZ(v)) for ix, v in expected) + "]")
+    for i, (c, r) in enumerate(zip(wcases, wres, strict=True)):
+        tag(f"wide/{c['op']}/pos{c['pw']}crd{c['cw']}")
+        if "add" not in r:
+            wviol(i, "crashed / hung / raised: " + json.dumps(r)[:300])
+            continue
+        scale = 1024 if c["dtype"].startswith("complex") else 1
+        total = {}
+        for (a_, b_, v) in c["e1"] + c["e2"]:
+            total[(a_, b_)] = total.get((a_, b_), 0) + v * scale
+        for k_, src in enumerate((c["e1"], c["e2"])):
+            sp_lits.append(sp_lit(r["inputs"][k_], [([a_, b_], v * scale) for a_, b_, v in src]))
+            sp_ref.append((i, "an input"))
+        if not r.get("inputs_unchanged", True):
+            wviol(i, "an input buffer was modified")
+        if r["add"]["shape"] != c["shape"]:
+            wviol(i, "shape of the sum")
+        else:
+            sp_lits.append(sp_lit(r["add"], [([a_, b_], v) for (a_, b_), v in sorted(total.items())]))
+            sp_ref.append((i, "the sum"))
+        wf_lits.append(vpair(vZ(0), "[" + "; ".join(v_fmt(x["fmt"]) for x in r["inputs"]) + "]", vnat(2), v_fmt(r["add"]["fmt"])))
+        wf_ref.append(i)
+        if "reshape" in r:
+            cols = c["shape"][1]
+            new = c["new_shape"]
+
+            def unravel(flat, shp=new):
+                out_ = []
+                for d_ in reversed(shp):
+                    out_.append(flat % d_)
+                    flat //= d_
+                return out_[::-1]
+            if r["reshape"]["shape"] != new:
+                wviol(i, "shape of the reshaped sum")
+            else:
+                sp_lits.append(sp_lit(r["reshape"], [(unravel(a_ * cols + b_), v) for (a_, b_), v in sorted(total.items())]))
+                sp_ref.append((i, "the reshaped sum (the sum itself is right; only its recorded widths feed the reshape)"))
+            wf_lits.append(vpair(vZ(1), "[" + v_fmt(r["add"]["fmt"]) + "]", vnat(len(new)), v_fmt(r["reshape"]["fmt"])))
+            wf_ref.append(i)
+    for k, code in build.judge("c20_wide", IMPORTS, "sparse_case", "judge_sparse", sp_lits, chunk=200):
+        i, which = sp_ref[k]
+        wviol(i, f"the constituent arrays of {which} do not denote the expected entries (judge_sparse code {code}: "
+                 + {2: "a stored coordinate lies outside the shape — coordinates were truncated to a narrower width",
+                    3: "stored entries differ"}.get(code, "array list does not fit the levels") + ")",
+              kind="representation" if code in (1, 4) or which == "an input" else "value", code=code)
+    for k, code in build.judge("c20_wide_fmt", IMPORTS, "opfmt_case", "judge_opfmt", wf_lits):
+        wviol(wf_ref[k], f"result format differs from the model's determine_format (code {code})",
+              kind="representation", code=code)
+
     # ------------------------------------------------------------ 3. lifetimes
     lcases = life_cases(tier, rng)
     lres = _run_mlir("impl_life", lcases, workers=12, timeout=90.0)
@@ -1088,7 +1333,7 @@ def campaign(build, tier, seed, report, budget=1):
     tag("life/model_predicts_dangling", len(predicted))
 
     # ------------------------------------------------------------ coverage
-    cov["evaluations"] = len(dcases) + len(ncases) + len(lcases) + len(dts_all)
+    cov["evaluations"] = len(dcases) + len(ncases) + len(wcases) + len(lcases) + len(dts_all)
     cov["distinct_nontrivial"] = (len({json.dumps(c, sort_keys=True) for c in dcases if c[0]})
                                   + len({json.dumps({k: v for k, v in c.items() if k != "seed"}, sort_keys=True)
                                          for c in ncases})
@@ -1097,10 +1342,14 @@ def campaign(build, tier, seed, report, budget=1):
                    "identity/reversed/shuffled, widths 8-64, out_ndim None/0-5); numeric: every storage format "
                    "(dense, SciPy csr/csc/coo, CSF 2-4-d incl. order (1,0), COO 1/3/4-d) x dtypes x shapes 1-4-d for "
                    "round-trips, all format pairs for add/asformat, a table of reshapes, every dense level order; "
-                   "lifetimes: per scenario every subset (<=3) of deletable objects, every admissible deletion slot, "
+                   "wide: 2-d CSF operands with pos_width < crd_width (8/16, 16/32, 32/64) and coordinates beyond the "
+                   "pointer width (extents up to 2^31+1000), add and add->reshape, judged on their entries; isolated: "
+                   "non-canonical SciPy csr/csc (duplicates, unsorted) and non-contiguous constituent arrays, one fresh "
+                   "interpreter each; lifetimes: per scenario every subset (<=3) of deletable objects, every admissible deletion slot, "
                    "every order inside a slot (quick tier: seeded sample); distinct = distinct case descriptions")
     cov["excluded_project_xfail"] = skipped
-    cov["component_counts"] = dict(determine_format=len(dcases), numeric=len(ncases), layout_judged=len(lay_lits),
+    cov["component_counts"] = dict(determine_format=len(dcases), numeric=len(ncases), numeric_isolated=len(scases),
+                                   wide_pos_lt_crd=len(wcases), sparse_judged=len(sp_lits), layout_judged=len(lay_lits),
                                    opfmt_judged=len(fmt_lits), tonumpy_judged=len(tn_lits), lifetime=len(lcases),
                                    lifetime_model_predicts_dangling=len(predicted),
                                    lifetime_confirmed_in_fresh_interpreter=len(confirm[:40]))
